@@ -12,6 +12,11 @@ import (
 	"github.com/aergoio/aergo/v2/types"
 )
 
+var verifDebugValues = false
+
+// VerifDebugValues switches printing of buffered storage values on (debugging aid).
+func VerifDebugValues(on bool) { verifDebugValues = on }
+
 // VerifBufferedAccounts lists the account ids that have an entry in the account buffer.
 func (states *StateDB) VerifBufferedAccounts() []types.AccountID {
 	states.lock.RLock()
@@ -43,6 +48,13 @@ func (states *StateDB) VerifStorageFingerprints() map[types.AccountID]string {
 				continue
 			}
 			lines = append(lines, hex.EncodeToString(k[:])+"="+hex.EncodeToString(et.Hash()))
+			if verifDebugValues {
+				if raw, ok := et.Value().([]byte); ok {
+					println("DEBUG-VALUE", hex.EncodeToString(k[:6]), hex.EncodeToString(raw))
+				} else if raw, ok := et.Value().(*[]byte); ok && raw != nil {
+					println("DEBUG-VALUE", hex.EncodeToString(k[:6]), hex.EncodeToString(*raw))
+				}
+			}
 		}
 		sort.Strings(lines)
 		h := sha256.New()
@@ -52,6 +64,23 @@ func (states *StateDB) VerifStorageFingerprints() map[types.AccountID]string {
 		if len(lines) > 0 {
 			out[id] = hex.EncodeToString(h.Sum(nil)[:8])
 		}
+	}
+	return out
+}
+
+// VerifStorageDump lists (trie key, value hash) of every staged contract storage after an Update (debugging aid).
+func (states *StateDB) VerifStorageDump() map[types.AccountID][]string {
+	out := map[types.AccountID][]string{}
+	states.Cache.lock.RLock()
+	defer states.Cache.lock.RUnlock()
+	for id, st := range states.Cache.storages {
+		var lines []string
+		for _, k := range st.Trie.GetKeys() {
+			v, _ := st.Trie.Get(k)
+			lines = append(lines, hex.EncodeToString(k[:6])+"="+hex.EncodeToString(v)[:12])
+		}
+		sort.Strings(lines)
+		out[id] = lines
 	}
 	return out
 }
